@@ -128,14 +128,23 @@ func (m *allocModel) apply(o allocOp) {
 // ---- real object driver
 
 type allocReal struct {
-	a      *allocator.Allocator
-	chans  []<-chan error
-	status []int
+	a        *allocator.Allocator
+	chans    []<-chan error
+	status   []int
+	panicked string // the allocator panicked in an earlier call (the instance is not used any further)
 }
 
 var allocPeers = []peer.ID{"A", "B", "C", "D"}
 
 func (r *allocReal) apply(o allocOp) {
+	if r.panicked != "" {
+		return
+	}
+	defer func() {
+		if x := recover(); x != nil {
+			r.panicked = fmt.Sprintf("%v in %s", x, o)
+		}
+	}()
 	switch o.Kind {
 	case "a":
 		r.chans = append(r.chans, r.a.AllocateBlockMemory(allocPeers[o.Peer], o.N))
@@ -253,6 +262,9 @@ func allocReplayHist(c allocCfg, h []allocOp, which string) (*allocModel, *alloc
 	for _, o := range h {
 		m.apply(o)
 		r.apply(o)
+	}
+	if r.panicked != "" {
+		return m, r, "allocator-panicked", r.panicked
 	}
 	sig, what := allocCompare(c, m, r, which)
 	return m, r, sig, what
